@@ -493,6 +493,19 @@ pub fn buf_as_hex_to_io_write(
     Ok(())
 }
 
+/// Return the str truncated to at most `max_len` bytes (cut at a char boundary).
+pub(crate) fn truncate_str(s: &str, max_len: usize) -> &str {
+    if s.len() <= max_len {
+        s
+    } else {
+        let mut end = max_len;
+        while !s.is_char_boundary(end) {
+            end -= 1;
+        }
+        &s[..end]
+    }
+}
+
 /// Convert a hex encoded string like "3d 0a 00..."
 /// to a Vec of u8.
 ///
